@@ -136,3 +136,54 @@ package util
 //@   ensures case reject: (bucketsNum <= 0 || secs(tick) < 1) <==> ret1 != nil
 //@   ensures case wf:     ret1 == nil ==> ret0 != nil && twBase(ret0) && twIndex(ret0) && twSingle(ret0)
 //@   ensures case empty:  ret1 == nil ==> forall(k interface{}, !has(ret0.bucketIndexes, k))
+
+// ---------------------------------------------------------------- C08 Murmur3_32 as Guava computes it (Java int arithmetic)
+// Java semantics: int multiplication wraps to 32 bits, >>> is the unsigned shift, Integer.rotateLeft(i, d) = (i << d) | (i >>> (32 - d)).
+//@ pure mul32(a int32, b uint32) int32 = int32(uint32(a) * b)
+//@ pure rotl15(x int32) int32 = int32((uint32(x) << 15) | (uint32(x) >> 17))
+//@ pure rotl13(x int32) int32 = int32((uint32(x) << 13) | (uint32(x) >> 19))
+//@ pure mixK1S(k1 int32) int32 = mul32(rotl15(mul32(k1, 0xcc9e2d51)), 0x1b873593)
+//@ pure mixH1S(h1 int32, k1 int32) int32 = int32(uint32(rotl13(h1 ^ k1)) * 5 + 0xe6546b64)
+//@ pure fmixA(h uint32) uint32 = (h ^ (h >> 16)) * 0x85ebca6b
+//@ pure fmixB(h uint32) uint32 = (h ^ (h >> 13)) * 0xc2b2ae35
+//@ pure fmixS(h1 int32, length int32) int32 = int32(fmixB(fmixA(uint32(h1) ^ uint32(length))) ^ (fmixB(fmixA(uint32(h1) ^ uint32(length))) >> 16))
+// opaque names for the three mixing steps: defined as the formulas above (definitional axioms, revealed only while verifying the
+// step functions themselves), uninterpreted in the proof of the fold loop
+//@ pure mixK1U(k1 int32) int32
+//@ pure mixH1U(h1 int32, k1 int32) int32
+//@ pure fmixU(h1 int32, length int32) int32
+//@ axiom mixK1Def for mixK1: forall(k1 int32, mixK1U(k1) == mixK1S(k1))
+//@ axiom mixH1Def for mixH1: forall(h1 int32, forall(k1 int32, mixH1U(h1, k1) == mixH1S(h1, k1)))
+//@ axiom fmixDef for fmix: forall(h1 int32, forall(length int32, fmixU(h1, length) == fmixS(h1, length)))
+//@ property C08: rotateLeft, mixK1, mixH1, fmix, (*MurmurHash).HashUnencodedChars
+//@ func rotateLeft
+//@   mode bv
+//@   requires 0 < distance && distance < 32
+//@   assigns \nothing
+//@   ensures distance == 15 ==> ret0 == rotl15(i)
+//@   ensures distance == 13 ==> ret0 == rotl13(i)
+//@ func mixK1
+//@   mode bv
+//@   assigns \nothing
+//@   ensures ret0 == mixK1S(k1) && ret0 == mixK1U(k1)
+//@ func mixH1
+//@   mode bv
+//@   assigns \nothing
+//@   ensures ret0 == mixH1S(h1, k1) && ret0 == mixH1U(h1, k1)
+//@ func fmix
+//@   mode bv
+//@   assigns \nothing
+//@   ensures ret0 == fmixS(h1, length) && ret0 == fmixU(h1, length)
+// the char-pair fold of Murmur3_32.hashUnencodedChars over the rune sequence of the key: mfold(seed, s, i) = h1 before the pair
+// (s[i-1], s[i]) is mixed in (i = 1, 3, 5, ...)
+//@ pure mfold(seed int32, s string, i int) int32
+//@ axiom mfoldStart for (*MurmurHash).HashUnencodedChars: forall(seed int32, forall(s string, mfold(seed, s, 1) == seed))
+//@ axiom mfoldStep for (*MurmurHash).HashUnencodedChars: forall(seed int32, forall(s string, forall(i int, 3 <= i && i <= runeLen(s) + 1 ==> mfold(seed, s, i) == mixH1U(mfold(seed, s, i - 2), mixK1U(runeAt(s, i - 3) | (runeAt(s, i - 2) << 16))))))
+//@ func (*MurmurHash).HashUnencodedChars
+//@   mode bv
+//@   requires m != nil
+//@   assigns \nothing
+//@   loop 0(i) invariant 1 <= i && i <= len(input) + 1 && (i & 1) == 1 && len(input) == runeLen(inputStr) && forall(k, 0, len(input), input[k] == runeAt(inputStr, k))
+//@   loop 0(i) invariant h1 == mfold(int32(m.seed), inputStr, i)
+//@   ensures case even: (runeLen(inputStr) & 1) == 0 ==> ret0 == int(fmixU(mfold(int32(m.seed), inputStr, runeLen(inputStr) + 1), int32(2 * runeLen(inputStr))))
+//@   ensures case odd:  (runeLen(inputStr) & 1) == 1 ==> ret0 == int(fmixU(mfold(int32(m.seed), inputStr, runeLen(inputStr)) ^ mixK1U(runeAt(inputStr, runeLen(inputStr) - 1)), int32(2 * runeLen(inputStr))))
